@@ -28,10 +28,19 @@ omitted; <slot> a decimal slot number):
         t read() returns str, e read() raises OSError, x object without read()
   lc:...                                   same as ld through the class: list(Loader(file, format, protein=...))
   gl:<dst>:<loaded slot>:<index>:<c|w|s>   matrices of the index-th loaded motif
+  dl:<slot>                                the history drops its (last) reference to the object: del, gc.collect(), then
+                                           allocation churn (new matrices / sequences of the same size, kept alive) so
+                                           that freed memory is reused while scanners / scores derived from it live on
+  further file modes of ld / lc (real files on disk, used before load() sees them; the loader must go on from
+  the current position): fb<k> open(path,"rb") after read(k), fu<k> the same unbuffered (FileIO), fk<k> after
+  seek(k), fn<n> after n readline() calls, fe after read() to the end, fz<k> gzip.open(path,"rb") after read(k),
+  fx text-mode file (read() returns str)
 
 Outcomes: V:<visible content> | E:<exception type name> | P (PanicException) | U (slot unbound / wrong use,
 nothing was called).  A crash of the interpreter is reported by the supervisor (c17_main.py) as A:<signal>.
 """
+import gc
+import gzip
 import io
 import os
 import sys
@@ -220,6 +229,7 @@ class Case:
         self.shadow = {}    # slot -> shadow (CoreVal, or dict for motifs/scanners/loaded lists)
         self.oracle = {}    # call -> result (insertion ordered)
         self.results = {}   # op index -> f64 bits of a float result
+        self.churn = []     # objects allocated after deletions, kept alive to occupy freed memory
 
     # -- oracle ----------------------------------------------------------------
     def core(self, call, fn, ren):
@@ -638,9 +648,16 @@ def run_op(cs, op):
         cs.shadow.pop(dst, None)
         p = boolv(protein)
         fm = "jaspar" if fmt is None else (fmt[1] if fmt[0] == "s" else None)
-        good = mode in ("p", "b") or mode[0] == "r"
-        if mode == "r0":
+        good = mode in ("p", "b") or mode[0] == "r" or (mode[0] == "f" and mode != "fx")
+        full = data
+        if mode == "r0" or mode == "fe":
             data = b""
+        elif mode[0] == "f" and mode[1] in "buzk":
+            data = data[int(mode[2:]):]
+        elif mode[0] == "f" and mode[1] == "n":
+            for _ in range(int(mode[2:])):
+                i = data.find(b"\n")
+                data = b"" if i < 0 else data[i + 1:]
         if p is not None and fm in ("jaspar", "jaspar16", "uniprobe", "transfac") and not (fm == "jaspar" and p) and good:
             shadows = []
 
@@ -667,6 +684,7 @@ def run_op(cs, op):
                         shadows.append(None if r is None else {"c": it[6], "w": r[0], "s": r[1]})
                 cs.shadow[dst] = {"motifs": shadows}
         tmp = None
+        opened = None
         try:
             if mode == "p":
                 fd, tmp = tempfile.mkstemp(prefix="c17-", suffix=".txt")
@@ -677,6 +695,30 @@ def run_op(cs, op):
                 fobj = "/nonexistent/c17/%d.txt" % os.getpid()
             elif mode == "b":
                 fobj = io.BytesIO(data)
+            elif mode[0] == "f":
+                fd, tmp = tempfile.mkstemp(prefix="c17-", suffix=".gz" if mode[1] == "z" else ".txt")
+                os.write(fd, gzip.compress(full) if mode[1] == "z" else full)
+                os.close(fd)
+                if mode == "fx":
+                    fobj = open(tmp, "r", encoding="latin-1")
+                elif mode[1] == "z":
+                    fobj = gzip.open(tmp, "rb")
+                    fobj.read(int(mode[2:]))
+                elif mode[1] == "u":
+                    fobj = open(tmp, "rb", buffering=0)
+                    fobj.read(int(mode[2:]))
+                else:
+                    fobj = open(tmp, "rb")
+                    if mode[1] == "b":
+                        fobj.read(int(mode[2:]))
+                    elif mode[1] == "k":
+                        fobj.seek(int(mode[2:]))
+                    elif mode[1] == "n":
+                        for _ in range(int(mode[2:])):
+                            fobj.readline()
+                    elif mode == "fe":
+                        fobj.read()
+                opened = fobj
             elif mode == "x":
                 fobj = NoRead()
             else:
@@ -701,6 +743,11 @@ def run_op(cs, op):
             cs.slots[dst] = motifs
             return "V:ld&" + "&".join(out) if out else "V:ld"
         finally:
+            if opened is not None:
+                try:
+                    opened.close()
+                except Exception:
+                    pass
             if tmp is not None:
                 try:
                     os.unlink(tmp)
@@ -724,6 +771,43 @@ def run_op(cs, op):
                 cs.shadow[dst] = sh["motifs"][idx][which]
         cs.slots[dst] = obj
         return "V:" + render(obj)
+
+    if name == "dl":
+        slot = int(f[1])
+        if slot not in cs.slots:
+            raise Unbound()
+        obj = cs.slots.pop(slot)
+        cs.shadow.pop(slot, None)
+        kind = obj
+        churn = []
+        # what to allocate afterwards so that the freed blocks are taken again
+        if isinstance(obj, lightmotif.ScoringMatrix):
+            w, prot = len(obj), obj.protein
+            recipe = ("sm", w, prot)
+        elif isinstance(obj, lightmotif.StripedSequence):
+            try:
+                shape = memoryview(obj).shape
+                n = int(shape[0]) * int(shape[1])
+            except Exception:
+                n = 64
+            recipe = ("sq", n, obj.protein)
+        else:
+            recipe = None
+        del obj, kind
+        gc.collect()
+        if recipe is not None and recipe[0] == "sm":
+            syms = SYMS[recipe[2]][:-1]
+            for k in range(24):
+                churn.append(lightmotif.ScoringMatrix({c: [-60.0 - k] * recipe[1] for c in syms}, protein=recipe[2]))
+        elif recipe is not None:
+            n = max(recipe[1], 1)
+            for k in range(24):
+                churn.append(lightmotif.stripe(("CATGG" * (n // 5 + 1))[:n]))
+        else:
+            for k in range(24):
+                churn.append(bytearray(64 * (k + 1)))
+        cs.churn.extend(churn)
+        return "V:deleted"
 
     raise ValueError("unknown op " + op)
 
